@@ -69,6 +69,30 @@ type c19qobs struct {
 	OpenMsg string    `json:"open_msg,omitempty"`
 	Reads   []c19read `json:"reads"`
 	Panic   string    `json:"panic,omitempty"`
+	// the same script over the eager-EOF ReaderAt
+	EagerOpen  int       `json:"eager_open"`
+	EagerReads []c19read `json:"eager_reads"`
+	EagerPanic string    `json:"eager_panic,omitempty"`
+}
+
+// c19eagerReaderAt keeps the io.ReaderAt contract but makes the other legal
+// choice where bytes.Reader answers nil: when the bytes asked for end exactly
+// at the end of the source it returns them together with io.EOF ("ReadAt may
+// return either err == EOF or err == nil").
+type c19eagerReaderAt struct{ data []byte }
+
+func (r c19eagerReaderAt) ReadAt(p []byte, off int64) (int, error) {
+	if off < 0 {
+		return 0, errors.New("c19eagerReaderAt: negative offset")
+	}
+	if off >= int64(len(r.data)) {
+		return 0, io.EOF
+	}
+	n := copy(p, r.data[off:])
+	if n < len(p) || off+int64(n) == int64(len(r.data)) {
+		return n, io.EOF
+	}
+	return n, nil
 }
 
 func c19newIndexErr(err error) int {
@@ -226,9 +250,13 @@ func c19(raw json.RawMessage) interface{} {
 	back, rerr := fai.ReadFrom(bytes.NewReader(w.Bytes()))
 	out["rt"] = c19idxObs(back, c19readFromErr(rerr), rerr)
 	f := fai.NewFile(bytes.NewReader(file), idx)
+	fe := fai.NewFile(c19eagerReaderAt{file}, idx)
 	qs := make([]c19qobs, 0, len(c.Queries))
 	for _, q := range c.Queries {
-		qs = append(qs, c19runQuery(f, q))
+		o := c19runQuery(f, q)
+		e := c19runQuery(fe, q)
+		o.EagerOpen, o.EagerReads, o.EagerPanic = e.Open, e.Reads, e.Panic
+		qs = append(qs, o)
 	}
 	out["queries"] = qs
 	return out
